@@ -148,6 +148,11 @@ crypt_sha1crypt_rn (const char *phrase, size_t phr_size,
     }
 
   sl = (size_t)(sp - setting);
+  if (sl > CRYPT_SHA1_SALT_LENGTH)
+    {
+      errno = EINVAL;
+      return;
+    }
 
   /*
    * Now get to work...
